@@ -135,7 +135,10 @@ pub fn run(id: &'static str, tier: Tier, seed: u64, replay: Option<&str>) -> i32
     // one workload in five writes batches of 60-120 records through a single shard/worker, so a
     // batch's journal intent spans several 512-byte sectors and can be torn
     let wide = crate::ops::wide_batch_strategy(vec![1, 2, 3, 3]);
-    let strategy = if id == "C04" { case_strategy(&b) } else { proptest::strategy::Union::new_weighted(vec![(4, case_strategy(&b)), (1, wide)]).boxed() };
+    // one workload in ten works on 2-3 keys with values of 200-600 blocks on a 2400-block device:
+    // extents beyond one retirement write (256 blocks), multi-write marker chains, long replays
+    let big = crate::ops::wide_extent_strategy(vec![1, 2, 3, 3]);
+    let strategy = if id == "C04" { proptest::strategy::Union::new_weighted(vec![(6, case_strategy(&b)), (1, big)]).boxed() } else { proptest::strategy::Union::new_weighted(vec![(7, case_strategy(&b)), (2, wide), (1, big)]).boxed() };
     let mut found = run_lanes(strategy, cases, tier.pick(40, 80), seed, env::threads(), check);
     env::wait_reaper();
     // C04 only: images synthesised with the codec to force every repair kind (duplicates in both
